@@ -306,6 +306,94 @@ def native_pipeline(nat, case, v):
     return False, "real output defines %s" % ref, src, cfg
 
 
+GP_SHAPES = {
+    "variant-nested": "#[typeshare]\npub struct Wrap<U> { pub u: U }\n#[typeshare]\n#[serde(tag = \"t\", content = \"c\")]\npub enum Holder<PLACEG> { A, V { page: Wrap<Vec<PLACEG>>, other: u32 } }\n",
+    "variant-nested-option": "#[typeshare]\npub struct Wrap<U> { pub u: U }\n#[typeshare]\n#[serde(tag = \"t\", content = \"c\")]\npub enum Holder<PLACEG> { A, V { page: Wrap<Option<PLACEG>> } }\n",
+    "variant-two-levels": "#[typeshare]\npub struct Wrap<U> { pub u: U }\n#[typeshare]\n#[serde(tag = \"t\", content = \"c\")]\npub enum Holder<PLACEG> { A, V { page: Wrap<Wrap<PLACEG>> } }\n",
+    "variant-shallow": "#[typeshare]\n#[serde(tag = \"t\", content = \"c\")]\npub enum Holder<PLACEG> { A, V { page: Vec<PLACEG> } }\n",
+    "struct-nested": "#[typeshare]\npub struct Wrap<U> { pub u: U }\n#[typeshare]\npub struct Holder<PLACEG> { pub page: Wrap<Vec<PLACEG>>, pub m: HashMap<String, Wrap<PLACEG>> }\n",
+    "tuple-variant-nested": "#[typeshare]\npub struct Wrap<U> { pub u: U }\n#[typeshare]\n#[serde(tag = \"t\", content = \"c\")]\npub enum Holder<PLACEG> { A, V(Wrap<Vec<PLACEG>>) }\n",
+}
+
+
+def case_generic_param(case):
+    """a generic parameter is never prefixed and every definition that mentions it declares it (source text -> parser -> back end)"""
+    lang, shape, prefix = case
+    from vlib.mirsym import synast, pharness
+    P = prog()
+    I = new_interp(P)
+    res = {"paths": 0, "violations": [], "case": list(case)}
+    src = GP_SHAPES[shape]
+    sym = z3.BitVec("g", 32)
+
+    def entry(I):
+        I.assume(z3.And(z3.UGE(sym, 65), z3.ULE(sym, 90)))
+        I.assume(sym != ord("U"))
+        f = synast.parse_source(P, src)
+        synast.plant(f, {"PLACEG": [sym]})
+        r = pharness.run_visitor(I, f)
+        if r.variant == 0:
+            raise Unsupported("vacuity: nothing parsed")
+        pd = bharness.reconcile_single(I, r.fields[0])
+        cfg = {"prefix": "OP"} if prefix else {}
+        ok, w, _ = bharness.generate(I, lang, pd, cfg=cfg)
+        return ok, w
+
+    pre = "OP" if prefix and lang in ("swift", "kotlin") else ""
+    for kind, out, pc in I.explore(entry, max_paths=100):
+        res["paths"] += 1
+        if kind == "panic" or not out[0]:
+            continue
+        sk = extract.Skel(out[1].chars)
+        t = sk.text
+        # (1) `<prefix><param>` as a whole identifier
+        if pre:
+            for m in re.finditer(r"(?<![\w])%s(%s)(?![\w])" % (pre, extract.PUA_CLASS), t):
+                e = seq_eq(I, sk.terms((m.start(1), m.end(1))), [sym])
+                if e is True or (e is not False and I.sat_model(e) is not None):
+                    mm = I.sat_model(z3.BoolVal(True))
+                    res["violations"].append({"kind": "generic-parameter-prefixed", "line": t[t.rfind("\n", 0, m.start()) + 1:t.find("\n", m.end())].strip()[:120], "param": chr(mm.eval(sym, model_completion=True).as_long())})
+                    break
+        # (2) every top-level definition whose body mentions the parameter declares it in its header
+        if lang in ("kotlin", "swift", "scala", "typescript"):
+            for m in re.finditer(r"^(?:[^\n]*\b(?:data class|class|struct|case class|interface|sealed class|enum|indirect enum|sealed trait)\b[^\n]*)$", t, re.M):
+                header = m.group(0)
+                if "Inner" not in header:
+                    continue
+                end = re.compile(r"^[)}]", re.M).search(t, m.end())
+                body = t[m.end():end.start() if end else len(t)]
+                uses = re.search(extract.PUA_CLASS, body) is not None
+                declares = re.search(extract.PUA_CLASS, header) is not None
+                if uses and not declares:
+                    mm = I.sat_model(z3.BoolVal(True))
+                    res["violations"].append({"kind": "generic-parameter-not-declared", "line": header.strip()[:120], "param": chr(mm.eval(sym, model_completion=True).as_long())})
+    uniq = {}
+    for v in res["violations"]:
+        uniq.setdefault(v["kind"], v)
+    res["violations"] = list(uniq.values())
+    return finish_case(I, res)
+
+
+def native_generic_param(nat, case, v):
+    lang, shape, prefix = case
+    g = v.get("param", "T")
+    src = GP_SHAPES[shape].replace("PLACEG", g)
+    cfg = dict(bharness.DEFAULT_CFG.get(lang, {}))
+    if prefix and lang in ("swift", "kotlin"):
+        cfg["prefix"] = "OP"
+    real = nat.ask({"op": "generate", "lang": lang, "files": [{"source": src}], "config": cfg})
+    out = real.get("out", {}).get("", None)
+    if out is None:
+        return None, str(real)[:200], src, cfg
+    if v["kind"] == "generic-parameter-prefixed":
+        if re.search(r"(?<![\w])OP%s(?![\w])" % re.escape(g), out):
+            return True, "%s with prefix OP on `%s`: the generic parameter is written `OP%s` (%s)" % (lang, src.replace("\n", " "), g, v.get("line")), src, cfg
+        return False, "no OP%s in the real output" % g, src, cfg
+    if v.get("line") and v["line"].replace(v.get("param", "T"), g) in out or (v.get("line") and v["line"] in out):
+        return True, "%s on `%s`: `%s` uses %s without declaring it" % (lang, src.replace("\n", " "), v["line"], g), src, cfg
+    return False, "header line not found in the real output", src, cfg
+
+
 def run(rep, tier, only=None):
     P = prog()
     nat = Replayer()
@@ -386,11 +474,36 @@ def run(rep, tier, only=None):
                 rep.inconc("replay failed for pipeline %s: %s" % (case, why))
             else:
                 rep.inconc("engine mismatch pipeline %s: %s; %s" % (case, v, why))
+    gcases = [(l, sh, pf) for l in LANGS for sh in GP_SHAPES for pf in ((False, True) if l in ("swift", "kotlin") else (False,))]
+    rep.bounds["generic parameters"] = "generic items whose parameter (one symbolic upper-case letter) occurs at depth 1-3 inside user generics / containers in struct fields, tuple and struct variants (%s), with and without prefix: never prefixed, declared by every helper definition that mentions it" % sorted(GP_SHAPES)
+    rep.harnesses["generic-param"] = len(gcases)
+    for st, case, r in pmap(("checks.c09", "case_generic_param"), gcases):
+        rep.obligations += 1
+        if st != "ok":
+            rep.inconc("generic-param %s: %s" % (case, r)); continue
+        account(rep, r); rep.discharged += 1
+        for v in r["violations"][:2]:
+            sig = {"lang": case[0], "b_kind": "generic_param", "renamed": False, "position": case[1], "kind": v["kind"], "role": "generic-param", "prefix": case[2]}
+            ok, why, src, cfg = native_generic_param(nat, case, v)
+            rep.validated += 1
+            if ok:
+                rep.violation(sig, why, {"source": src, "lang": case[0], "config": cfg, "generic_param": list(case), "v": v})
+            elif ok is None:
+                rep.inconc("replay failed for generic-param %s: %s" % (case, why))
+            else:
+                rep.inconc("engine mismatch generic-param %s: %s; %s" % (case, v, why))
     nat.close()
     rep.extra["explore_s"] = round(time.time() - t0, 1)
 
 
 def replay(case):
+    if case["case"].get("generic_param"):
+        nat = Replayer()
+        c = case["case"]
+        ok, why, _, _ = native_generic_param(nat, tuple(c["generic_param"]), c["v"])
+        nat.close()
+        print(why)
+        return 1 if ok else 0
     if case["case"].get("pipeline"):
         nat = Replayer()
         c = case["case"]
